@@ -195,3 +195,21 @@ Lemma tie_tp_rh_destroy : TIE_tp_rh_destroy =
    (0, "free(rh)");
    (0, "*prh=NULL")].
 Proof. reflexivity. Qed.
+
+(* mtbl/threadpool.c: threadpool_init *)
+Lemma tie_tp_threadpool_init : TIE_tp_threadpool_init =
+  [(0, "structthreadpool*pool=calloc(1,sizeof(*pool))");
+   (0, "pthread_mutex_init(&pool->m,NULL)");
+   (0, "pthread_cond_init(&pool->c,NULL)");
+   (0, "pool->max=max_threads");
+   (0, "returnpool")].
+Proof. reflexivity. Qed.
+
+(* mtbl/threadpool.c: resultq_init *)
+Lemma tie_tp_resultq_init : TIE_tp_resultq_init =
+  [(0, "structresultq*rq=calloc(1,sizeof(*rq))");
+   (0, "pthread_mutex_init(&rq->m,NULL)");
+   (0, "pthread_cond_init(&rq->c,NULL)");
+   (0, "rq->ptail=&rq->head");
+   (0, "returnrq")].
+Proof. reflexivity. Qed.
